@@ -174,6 +174,76 @@ class Probe:
         self.rec(e="run_end", t=self.clock(), outcome="return", exc=None)
 
 
+# ---------------------------------------------------------------------------- real OS: wait recorder
+
+
+class WaitRecorder:
+    """pass-through wrapper around a loop's OS wait primitive (real clock mode).
+
+    Records one `block` record per call: the timeout the loop REQUESTED (seconds, None = for ever), the
+    loop clock before/after and which of the harness descriptors were readable when the wait began.
+    The contract checker only uses the requested timeout (the loop's own decision to go to sleep),
+    never how long the call took, so host scheduling stalls cannot create verdicts.
+    """
+
+    def __init__(self, clock, readable):
+        self.clock = clock
+        self.readable = readable
+        self.sink = None  # the probe's history list
+
+    def note(self, timeout_s):
+        # the record is placed in the history when the wait BEGINS (twisted dispatches the ready descriptors
+        # inside the same doIteration call, so their callbacks must come after it)
+        ev = {"e": "block", "timeout": timeout_s, "t_from": self.clock(), "t_to": -1.0, "readable_from": self.readable()}
+        if self.sink is not None:
+            self.sink.append(ev)
+        return ev
+
+    def done(self, ev):
+        ev["t_to"] = self.clock()
+
+    def wrap(self, fn, to_seconds=None):
+        """wrap fn(timeout, ...) -> same; to_seconds converts the raw timeout argument to seconds or None"""
+        conv = to_seconds or (lambda t: None if t is None or t < 0 else float(t))
+
+        def wait(timeout=None, *a, **kw):
+            ev = self.note(conv(timeout))
+            try:
+                return fn(timeout, *a, **kw)
+            finally:
+                self.done(ev)
+
+        return wait
+
+
+class PollerProxy:
+    """delegating stand-in for the zmq.Poller of one ZMQEventLoop (real clock mode)"""
+
+    def __init__(self, real, recorder):
+        self._real = real
+        self._rec = recorder
+
+    @property
+    def sockets(self):
+        return self._real.sockets
+
+    def register(self, *a, **kw):
+        return self._real.register(*a, **kw)
+
+    def modify(self, *a, **kw):
+        return self._real.modify(*a, **kw)
+
+    def unregister(self, *a, **kw):
+        return self._real.unregister(*a, **kw)
+
+    def poll(self, timeout=None):
+        ev = self._rec.note(None if timeout is None or timeout < 0 else timeout / 1000.0)
+        try:
+            return self._real.poll(timeout)
+        finally:
+            self._rec.done(ev)
+
+
 # ---------------------------------------------------------------------------- virtual OS
 
 
